@@ -283,9 +283,18 @@ Top:
 			b = append(b, "}>"...)
 		}
 	case SpecialSyntax:
+		if args := to.GetArgs(); 0 < len(args) {
+			b = append(b, to.SpecialPrefix()...)
+			obj = args[0]
+			goto Top
+		}
+		// A quote, function, or backquote form without an argument, as
+		// in (quote), has no special syntax. Write it as a plain list.
+		if fun, ok := obj.(Funky); ok {
+			obj = List{Symbol(fun.GetName())}
+			goto Top
+		}
 		b = append(b, to.SpecialPrefix()...)
-		obj = to.GetArgs()[0]
-		goto Top
 	case Funky:
 		name := to.GetName()
 		obj = append(List{Symbol(name)}, to.GetArgs()...)
@@ -405,10 +414,19 @@ Top:
 		n.buf = to.Readably(nil, p)
 		n.size = len(n.buf)
 	case SpecialSyntax:
-		obj = to.GetArgs()[0]
-		n.special = to.SpecialPrefix()
-		n.funky = true
-		goto Top
+		if args := to.GetArgs(); 0 < len(args) {
+			obj = args[0]
+			n.special = to.SpecialPrefix()
+			n.funky = true
+			goto Top
+		}
+		// No argument as in (quote), write it as a plain list.
+		if fun, ok := obj.(Funky); ok {
+			obj = List{Symbol(fun.GetName())}
+			goto Top
+		}
+		n.buf = []byte(to.SpecialPrefix())
+		n.size = len(n.buf)
 	case Funky:
 		name := to.GetName()
 		obj = append(List{Symbol(name)}, to.GetArgs()...)
